@@ -79,7 +79,6 @@ Qed.
 Record Inv (s : st) : Prop := {
   inv_reg_joined : forall k c, In (k, c) (reg s) -> nth_error (conns s) c = Some (CJoined k);
   inv_joined_reg : forall k c, nth_error (conns s) c = Some (CJoined k) -> lookup k (reg s) = Some c;
-  inv_nonempty   : forall k c, In (k, c) (reg s) -> k <> 0;
 }.
 
 Lemma Inv_init : Inv init.
@@ -88,14 +87,13 @@ Proof.
   destruct c; discriminate.
 Qed.
 
-Lemma Inv_step : forall s c s' o, nonempty_key c -> Inv s -> step s c = Some (s', o) -> Inv s'.
+Lemma Inv_step : forall s c s' o, Inv s -> step s c = Some (s', o) -> Inv s'.
 Proof.
-  intros s ch s' o Hne [Ha Hb Hc] E. destruct ch as [|c k|c|c|c|k]; simpl in E.
+  intros s ch s' o [Ha Hb] E. unfold step in E. destruct ch as [|c k|c|c|c|k]; simpl in E.
   - (* Connect *)
     inversion E; subst; clear E. split; simpl.
     + intros k c Hin. apply nth_error_snoc_keep. auto.
     + intros k c Hn. apply Hb. eapply nth_error_snoc_old; eauto. discriminate.
-    + auto.
   - (* FirstMsg *)
     destruct (nth_error (conns s) c) as [[| | |]|] eqn:Ec; try discriminate.
     destruct (lookup k (reg s)) as [c0|] eqn:El; inversion E; subst; clear E.
@@ -106,7 +104,6 @@ Proof.
       * intros k' c' Hn. destruct (Nat.eq_dec c c') as [->|Hd].
         -- erewrite nth_error_set_nth_eq in Hn by eauto. discriminate.
         -- rewrite nth_error_set_nth_neq in Hn by auto. auto.
-      * auto.
     + (* joined *)
       split; simpl.
       * intros k' c' [Heq|Hin].
@@ -120,7 +117,6 @@ Proof.
            pose proof (Hb _ _ Hn) as Hl.
            destruct (k =? k') eqn:Ek; auto.
            apply N.eqb_eq in Ek; subst. congruence.
-      * intros k' c' [Heq|Hin]; [inversion Heq; subst; exact Hne | eauto].
   - (* BadKeyMsg *)
     destruct (nth_error (conns s) c) as [[| | |]|]; inversion E; subst. now split.
   - (* Msg *)
@@ -128,43 +124,44 @@ Proof.
   - (* Stop *)
     destruct (nth_error (conns s) c) as [cs|] eqn:Ec; try discriminate.
     assert (Hcs : cs <> CDone) by (intros ->; discriminate).
-    assert (E' : s' = {| reg := del (ckey cs) (reg s); conns := set_nth c CDone (conns s); ncall := ncall s |})
+    assert (E' : s' = {| reg := leave_reg true cs (reg s); conns := set_nth c CDone (conns s); ncall := ncall s |})
       by (destruct cs; inversion E; auto; congruence).
     subst s'. clear E. split; simpl.
-    + intros k' c' Hin. apply In_del in Hin as [Hin Hk].
-      pose proof (Ha _ _ Hin) as H.
+    + intros k' c' Hin.
+      assert (Hin' : In (k', c') (reg s) /\ (forall k, cs = CJoined k -> k' <> k)).
+      { destruct cs as [|k| |]; simpl in Hin; try (split; [exact Hin | intros; discriminate]).
+        apply In_del in Hin as [Hin Hk]. split; [exact Hin|]. intros k0 [= <-]. exact Hk. }
+      destruct Hin' as [Hin' Hk]. pose proof (Ha _ _ Hin') as H.
       rewrite nth_error_set_nth_neq; auto. intros ->.
-      rewrite Ec in H. inversion H; subst. simpl in Hk. congruence.
+      rewrite Ec in H. inversion H; subst. now apply (Hk k').
     + intros k' c' Hn. destruct (Nat.eq_dec c c') as [->|Hd].
       * erewrite nth_error_set_nth_eq in Hn by eauto. discriminate.
       * rewrite nth_error_set_nth_neq in Hn by auto.
         pose proof (Hb _ _ Hn) as Hl.
+        destruct cs as [|k| |]; simpl; auto; try congruence.
         rewrite lookup_del_other; auto.
-        intros ->. destruct cs as [|k| |]; simpl in *.
-        -- apply lookup_In in Hl. now apply Hc in Hl.
-        -- pose proof (Hb _ _ Ec) as Hl2. congruence.
-        -- apply lookup_In in Hl. now apply Hc in Hl.
-        -- congruence.
-    + intros k' c' Hin. apply In_del in Hin as [Hin _]. eauto.
+        intros ->. pose proof (Hb _ _ Ec) as Hl2. congruence.
   - (* Send *)
     destruct (lookup k (reg s)); inversion E; subst; now split.
 Qed.
 
-Definition reachable (s : st) : Prop :=
-  exists sched, Forall nonempty_key sched /\ s = final step init sched.
+(* every state after ANY schedule: no hypothesis on the keys (the empty key is a key like any other
+   since fix 8f7d690) *)
+Definition reachable (s : st) : Prop := exists sched, s = final step init sched.
 
 Lemma reachable_Inv : forall s, reachable s -> Inv s.
 Proof.
-  intros s [sched [Hne ->]].
-  apply (final_invariant _ _ _ step nonempty_key Inv); auto using Inv_init.
-  intros; eapply Inv_step; eauto.
+  intros s [sched ->].
+  apply (final_invariant _ _ _ step (fun _ => True) Inv); auto using Inv_init.
+  - intros; eapply Inv_step; eauto.
+  - apply Forall_forall. auto.
 Qed.
 
 (* ---------------- C11 ---------------- *)
 Lemma unique_owner : forall s, reachable s -> forall k c1 c2,
   owner s c1 k -> owner s c2 k -> c1 = c2.
 Proof.
-  intros s Hr k c1 c2 H1 H2. apply reachable_Inv in Hr as [_ Hb _].
+  intros s Hr k c1 c2 H1 H2. apply reachable_Inv in Hr as [_ Hb].
   apply Hb in H1. apply Hb in H2. congruence.
 Qed.
 
@@ -172,7 +169,7 @@ Qed.
 Lemma registry_is_owners : forall s, reachable s -> forall k c,
   lookup k (reg s) = Some c <-> owner s c k.
 Proof.
-  intros s Hr k c. apply reachable_Inv in Hr as [Ha Hb _]. split.
+  intros s Hr k c. apply reachable_Inv in Hr as [Ha Hb]. split.
   - intros H. apply Ha. now apply lookup_In.
   - apply Hb.
 Qed.
@@ -184,40 +181,36 @@ Lemma refused_leaves_first_alone : forall s, reachable s -> forall c c' k,
   exists s1 s2,
     step s (FirstMsg c' k) = Some (s1, [OJoin c' k 1]) /\ reg s1 = reg s /\ owner s1 c k /\
     step s1 (Stop c') = Some (s2, [OLeave c' 0]) /\
-    (forall k', lookup k' (reg s2) = lookup k' (reg s)) /\ owner s2 c k.
+    reg s2 = reg s /\ owner s2 c k.
 Proof.
-  intros s Hr c c' k Ho Hn. pose proof (reachable_Inv _ Hr) as [Ha Hb Hc].
+  intros s Hr c c' k Ho Hn. pose proof (reachable_Inv _ Hr) as [Ha Hb].
   assert (Hcc : c' <> c) by (intros ->; unfold owner in Ho; congruence).
-  unfold step at 1. rewrite Hn. rewrite (Hb _ _ Ho).
+  unfold step, step_v at 1. rewrite Hn. rewrite (Hb _ _ Ho).
   eexists; eexists; split; [reflexivity|]. simpl. split; [reflexivity|]. split.
   { unfold owner; simpl. now rewrite nth_error_set_nth_neq. }
   rewrite (nth_error_set_nth_eq _ _ _ _ _ Hn). simpl.
-  split; [reflexivity|]. simpl. split.
-  - intros k'. destruct (N.eq_dec k' 0) as [->|Hk].
-    + rewrite lookup_del_same. destruct (lookup 0 (reg s)) eqn:E; auto.
-      apply lookup_In in E. now apply Hc in E.
-    + now apply lookup_del_other.
-  - unfold owner; simpl. rewrite !nth_error_set_nth_neq; auto.
+  split; [reflexivity|]. simpl. split; [reflexivity|].
+  unfold owner; simpl. rewrite !nth_error_set_nth_neq; auto.
 Qed.
 
-(* when a connection ends its key, and only its key, becomes free *)
+(* when a connection ends its key, and only its key, becomes free; a connection that never joined (also a
+   refused one) frees nothing *)
 Lemma leave_frees_only_own_key : forall s, reachable s -> forall c cs,
   nth_error (conns s) c = Some cs -> cs <> CDone ->
   exists s1,
     step s (Stop c) = Some (s1, [OLeave c (ckey cs)]) /\
     (forall k, cs = CJoined k -> lookup k (reg s1) = None) /\
     (forall k', cs <> CJoined k' -> lookup k' (reg s1) = lookup k' (reg s)) /\
+    ((forall k, cs <> CJoined k) -> reg s1 = reg s) /\
     (forall c' k', c' <> c -> (owner s1 c' k' <-> owner s c' k')).
 Proof.
-  intros s Hr c cs Hn Hd. pose proof (reachable_Inv _ Hr) as [Ha Hb Hc].
-  exists {| reg := del (ckey cs) (reg s); conns := set_nth c CDone (conns s); ncall := ncall s |}.
-  split; [unfold step; rewrite Hn; destruct cs; auto; congruence|]. simpl. split; [|split].
+  intros s Hr c cs Hn Hd. pose proof (reachable_Inv _ Hr) as [Ha Hb].
+  exists {| reg := leave_reg true cs (reg s); conns := set_nth c CDone (conns s); ncall := ncall s |}.
+  split; [unfold step, step_v; rewrite Hn; destruct cs; auto; congruence|]. simpl. split; [|split; [|split]].
   - intros k ->. simpl. apply lookup_del_same.
-  - intros k' Hk. destruct (N.eq_dec k' (ckey cs)) as [->|Hne].
-    + destruct cs as [|k| |]; simpl in *; try congruence;
-        rewrite lookup_del_same; destruct (lookup 0 (reg s)) eqn:E; auto;
-        apply lookup_In in E; now apply Hc in E.
-    + now apply lookup_del_other.
+  - intros k' Hk. destruct cs as [|k| |]; simpl; auto.
+    apply lookup_del_other. intros ->. now apply Hk.
+  - intros Hk. destruct cs as [|k| |]; simpl; auto. now destruct (Hk k).
   - intros c' k' Hcc. unfold owner; simpl. rewrite nth_error_set_nth_neq by congruence. tauto.
 Qed.
 
@@ -231,9 +224,9 @@ Lemma rejoin_after_leave : forall s, reachable s -> forall c k c2,
 Proof.
   intros s Hr c k c2 Ho Hn.
   assert (Hcc : c <> c2) by (intros ->; unfold owner in Ho; congruence).
-  unfold step at 1. rewrite Ho. simpl.
+  unfold step at 1; unfold step_v at 1. rewrite Ho. simpl.
   eexists; eexists; split; [reflexivity|].
-  unfold step. simpl. rewrite nth_error_set_nth_neq by auto. rewrite Hn.
+  unfold step, step_v. simpl. rewrite nth_error_set_nth_neq by auto. rewrite Hn.
   rewrite lookup_del_same. split; [reflexivity|]. simpl. split.
   - unfold owner; simpl. eapply nth_error_set_nth_eq. rewrite nth_error_set_nth_neq; eauto.
   - now rewrite N.eqb_refl.
@@ -246,8 +239,8 @@ Lemma routing : forall s, reachable s -> forall k,
   ((forall c, ~ owner s c k) /\
      step s (Send k) = Some ({| reg := reg s; conns := conns s; ncall := ncall s + 1 |}, [ONotExist (ncall s)])).
 Proof.
-  intros s Hr k. pose proof (reachable_Inv _ Hr) as [Ha Hb Hc].
-  unfold step. destruct (lookup k (reg s)) as [c|] eqn:E.
+  intros s Hr k. pose proof (reachable_Inv _ Hr) as [Ha Hb].
+  unfold step, step_v. destruct (lookup k (reg s)) as [c|] eqn:E.
   - left. exists c. split; auto. apply Ha. now apply lookup_In.
   - right. split; auto. intros c Ho. apply Hb in Ho. congruence.
 Qed.
@@ -256,7 +249,6 @@ Qed.
    very next observation - before anything any connection, caller or the manager does afterwards - and the
    call leaves the registry and every connection as they were (no connection, no timer is involved) *)
 Lemma not_online_at_once : forall sched1 sched2 k,
-  Forall nonempty_key sched1 ->
   (forall c, ~ owner (final step init sched1) c k) ->
   trace step init (sched1 ++ Send k :: sched2) =
     trace step init sched1 ++
@@ -264,7 +256,7 @@ Lemma not_online_at_once : forall sched1 sched2 k,
     trace step {| reg := reg (final step init sched1); conns := conns (final step init sched1);
                   ncall := ncall (final step init sched1) + 1 |} sched2.
 Proof.
-  intros sched1 sched2 k Hne Hno.
+  intros sched1 sched2 k Hno.
   rewrite trace_app. f_equal.
   assert (Hr : reachable (final step init sched1)) by (exists sched1; auto).
   destruct (routing _ Hr k) as [[c [Ho _]]|[_ E]]; [exfalso; exact (Hno c Ho)|].
@@ -312,7 +304,7 @@ Lemma callbacks_step : forall s ch s' o c,
   step s ch = Some (s', o) ->
   cb_run (cstate_of s c) (callbacks c o) = Some (cstate_of s' c).
 Proof.
-  intros s ch s' o c E. destruct ch as [|c0 k|c0|c0|c0|k]; simpl in E.
+  intros s ch s' o c E. unfold step in E. destruct ch as [|c0 k|c0|c0|c0|k]; simpl in E.
   - inversion E; subst; simpl. f_equal. unfold cstate_of; simpl.
     destruct (nth_error (conns s) c) eqn:En.
     + now erewrite nth_error_snoc_keep by eauto.
@@ -333,7 +325,7 @@ Proof.
   - destruct (nth_error (conns s) c0) as [cs|] eqn:Ec; try discriminate.
     assert (Hlt : (c0 < length (conns s))%nat) by (apply nth_error_Some; congruence).
     assert (Hcs : cs <> CDone) by (intros ->; discriminate).
-    assert (E' : s' = {| reg := del (ckey cs) (reg s); conns := set_nth c0 CDone (conns s); ncall := ncall s |}
+    assert (E' : s' = {| reg := leave_reg true cs (reg s); conns := set_nth c0 CDone (conns s); ncall := ncall s |}
                  /\ o = [OLeave c0 (ckey cs)])
       by (destruct cs; inversion E; auto; congruence).
     destruct E' as [-> ->]. simpl.
@@ -437,10 +429,33 @@ Qed.
 
 (* ---------------- the hypothesis is needed, and it is satisfiable ---------------- *)
 (* with KeyFunc yielding "" a connection that never joined evicts the owner of "" when it ends *)
-Lemma empty_key_evicts :
-  let s := final step init [Connect; Connect; FirstMsg 0%nat 0; Stop 1%nat] in
+(* the code before fix 8f7d690 ([step_before_fix]: every ending connection called leave(c.key)): a connection
+   that never joined evicted the owner of the empty key; the code as it is keeps it *)
+Lemma empty_key_evicted_before_fix :
+  let s := final step_before_fix init [Connect; Connect; FirstMsg 0%nat 0; Stop 1%nat] in
   nth_error (conns s) 0%nat = Some (CJoined 0) /\ lookup 0 (reg s) = None.
 Proof. vm_compute. split; reflexivity. Qed.
+
+Lemma empty_key_kept :
+  let s := final step init [Connect; Connect; FirstMsg 0%nat 0; Stop 1%nat] in
+  nth_error (conns s) 0%nat = Some (CJoined 0) /\ lookup 0 (reg s) = Some 0%nat.
+Proof. vm_compute. split; reflexivity. Qed.
+
+(* a refused connection can do one thing only: end *)
+Definition targets (ch : choice) (c : conn) : Prop :=
+  match ch with
+  | FirstMsg c' _ | BadKeyMsg c' | Msg c' | Stop c' => c' = c
+  | _ => False
+  end.
+
+Lemma refused_only_stops : forall s c ch s' o,
+  nth_error (conns s) c = Some CRefused -> targets ch c -> step s ch = Some (s', o) ->
+  ch = Stop c /\ o = [OLeave c 0] /\ reg s' = reg s.
+Proof.
+  intros s c ch s' o Hn Ht E. unfold step, step_v in E.
+  destruct ch as [|c' k|c'|c'|c'|k]; simpl in Ht; try contradiction; subst c'; rewrite Hn in E; try discriminate.
+  inversion E; subst. auto.
+Qed.
 
 Lemma explains_run : forall ops s o, explains s ops = Some o -> run step s ops = (final step s ops, o).
 Proof.
